@@ -275,9 +275,24 @@ pub fn guard<T>(f: impl FnOnce() -> T) -> Result<T, String> {
     }
 }
 
-/// panic location only ("file:line"), for stable keys
+/// panic site for keys: source file + head of the message (no line number, so that an unrelated edit of the
+/// file does not turn a known finding into a new key)
 pub fn panic_site(msg: &str) -> String {
-    msg.rsplit(" @ ").next().unwrap_or(msg).to_string()
+    let (m, loc) = match msg.rsplit_once(" @ ") {
+        Some((m, l)) => (m, l),
+        None => ("", msg),
+    };
+    let file = loc.rsplit_once(':').map(|(f, _)| f).unwrap_or(loc);
+    let mut head = String::new();
+    for c in m.split(':').next().unwrap_or("").chars() {
+        let c = if c.is_ascii_alphanumeric() { c } else { '-' };
+        if c == '-' && head.ends_with('-') {
+            continue;
+        }
+        head.push(c);
+    }
+    let head: String = head.trim_matches('-').chars().take(48).collect();
+    format!("{file}#{head}")
 }
 
 pub fn sha_hex(data: &[u8]) -> String {
